@@ -297,11 +297,6 @@ def setEnc0 (e : Cps) : List Rule → List Rule
 /-- set `_parentStyleSheet = self` on the object with this id in the list -/
 def adoptId (i : Nat) (l : List Rule) : List Rule := l.map (fun r => if r.id = i then r.adopt else r)
 
-/-- `for i, r in enumerate(l): if r is rule: del l[i]; break` -/
-def removeId (i : Nat) : List Rule → List Rule
-  | [] => []
-  | r :: rs => if r.id = i then rs else r :: removeId i rs
-
 /-- `insertRule` after the index check, the optional string parse and the `wellformed` test, for the rule object `r`.
 `dict` is `self.namespaces` at the time of the call (the sheet's own view, or the parser's plain dict while a text is
 being parsed); `clean` the `_clean` argument; `track`: the caller holds a reference to `r` (it was not parsed from a
@@ -323,11 +318,9 @@ def insertCore (st : St) (dict : Dict) (r : Rule) (index : Nat) (inOrder clean t
           let removed := c.2.1.filter (fun g => track || g.id ≠ r.id)
           match c.2.2 with
           | some e =>
-            -- `deleteRule` raised inside the clean-up: the new rule is taken out again and the exception goes on
-            -- (`:817-825`); what the clean-up had removed before stays removed
-            let stillIn := c.1.any (fun x => x.id = r.id)
-            ({ st with rules := removeId r.id c.1,
-                       gone := st.gone ++ removed ++ (if track && stillIn then [r] else []) }, .err e)
+            -- `deleteRule` raised inside the clean-up: the whole rule list is put back (rules the clean-up had
+            -- already detached get the sheet as parent again) and the exception goes on (`:815-829`)
+            ({ st with gone := st.gone ++ (if track then [r] else []) }, .err e)
           | none =>
             if c.1.any (fun x => x.id = r.id) then                           -- :801 `rule not in self._cssRules`
               ({ st with rules := adoptId r.id c.1, gone := st.gone ++ removed }, .ok i)   -- :881, :887
